@@ -37,8 +37,8 @@ PROPS = {
         "modelled": CORE_MODELLED,
     },
     "C05": {
-        "quick": [("alloc", 300, 120), ("gc", 100, 120), ("fork", 150, 80)],
-        "thorough": [("alloc", 4000, 300), ("gc", 1000, 300), ("cycle", 140, 400), ("fork", 3000, 160)],
+        "quick": [("alloc", 300, 120), ("gc", 100, 120), ("fork", 150, 80), ("merge", 150, 0), ("script", 60, 12)],
+        "thorough": [("alloc", 4000, 300), ("gc", 1000, 300), ("cycle", 140, 400), ("fork", 3000, 160), ("merge", 4000, 0), ("script", 1500, 16)],
         "rule": "allocator-heavy histories (explicit add ahead of and behind the position, collections freeing lower ids) and the fork profile (clones taken after a random prefix / after everything was read and collected / after allocator calls only / at once, then next_id on both copies); non-trivial = at least two next_id calls",
         "nontrivial": "nextids",
         "modelled": CORE_MODELLED,
@@ -66,7 +66,7 @@ PROPS["C15"] = {
     "quick": [("hex15", 60, 12)],
     "thorough": [("hex15", 3000, 16)],
     "pure": True,
-    "rule": "exhaustive small scope: every length 0..=12 (thorough 16) x {from_vec, heap, inline with zero / 0xFF / counting padding} x every index 0..len+2 and usize::MAX(-1) x every (start,end) of the six range kinds over the same set, x all pairs for ==, plus boundary and seeded random 64-bit patterns and random byte strings; each line also carries the answer of the real byte slice; distinct_nontrivial = distinct operation lines executed",
+    "rule": "exhaustive small scope: every length 0..=12 (thorough 16) x {from_vec, heap, inline with zero / 0xFF / counting padding} x every index 0..len+2 and usize::MAX(-1) x every (start,end) of the six range kinds over the same set, x all pairs for ==, plus boundary and seeded random 64-bit patterns and random byte strings, the narrower From conversions (8/16/32-bit patterns incl. f32 NaN payloads), to_bool/is_empty on every representation, and from_str_bytes/to_utf8 on boundary code points of every encoded width, byte strings that are almost UTF-8 (overlong forms, surrogates, beyond U+10FFFF, truncated, stray continuation bytes) and random texts with one byte damaged; each line also carries the answer of the real byte slice; distinct_nontrivial = distinct operation lines executed",
     "modelled": PURE_MODELLED,
 }
 PROPS["C16"] = {
